@@ -1034,9 +1034,12 @@ package fzf
 //@ modifies *cl, *cl.cache
 //@ ensures r2 == (tail > 0 && old(sumc(cl.chunks, len(cl.chunks))) > tail)
 //@ ensures fresh(r0) && len(r0) == len(cl.chunks) && forall(k, 0, len(r0), r0[k] != nil)
+// (the chunks kept for --tail hold at least `tail` items: the count-down stops only when it has reached zero)
+//@ assert @"ret := make([]*Chunk, numChunks)" left <= 0
 //@ loop 1
 //@   writes nothing
 //@   invariant -1 <= i && i <= len(cl.chunks) - 1 && numChunks == len(cl.chunks) - 1 - i
+//@   invariant left == tail - (sumc(cl.chunks, len(cl.chunks)) - sumc(cl.chunks, i + 1)) && sumc(cl.chunks, len(cl.chunks)) > tail
 //@ loop 2
 //@   writes ret[*], *cl.cache
 //@   invariant -1 <= i && i <= len(ret) - 1 && fresh(ret) && forall(k, 0, len(ret), ret[k] != nil && 0 <= ret[k].count && ret[k].count <= 100)
